@@ -542,6 +542,41 @@ pub fn drive_c20(a: &Args, out: &mut Out) {
                 "expired_deadline":true,"round":round,"variants":[],"runs":runs}));
         }
     }
+    // one TextDiffConfig with a relative timeout, used again after more than the timeout has passed
+    // (and once more from another thread): the same diff must come back every time.  Real
+    // clock; the diff takes microseconds, the timeout is 300 ms, the pause 450 ms.
+    {
+        let n = rng.range(30, 60);
+        let x: Vec<u32> = (0..n as u32).collect();
+        let e = rng.range(2, 4);
+        let y = gen::mutate(&mut rng, &x, e, n as u32 + 5);
+        let xt: String = x.iter().map(|v| format!("{}\n", v)).collect();
+        let yt: String = y.iter().map(|v| format!("{}\n", v)).collect();
+        let mut handles = vec![];
+        for alg in ALGS {
+            let (xt, yt) = (xt.clone(), yt.clone());
+            handles.push(std::thread::spawn(move || {
+                let mut cfg = similar::TextDiff::configure();
+                cfg.algorithm(alg);
+                cfg.timeout(std::time::Duration::from_millis(300));
+                let mut runs = vec![ops_json(cfg.diff_lines(&xt[..], &yt[..]).ops())];
+                std::thread::sleep(std::time::Duration::from_millis(450));
+                runs.push(ops_json(cfg.diff_lines(&xt[..], &yt[..]).ops()));
+                let cfg2 = cfg.clone();
+                let (xt2, yt2) = (xt.clone(), yt.clone());
+                let other = std::thread::spawn(move || ops_json(cfg2.diff_lines(&xt2[..], &yt2[..]).ops())).join();
+                runs.push(other.unwrap_or(json!([[-1]])));
+                (alg, runs)
+            }));
+        }
+        for h in handles {
+            if let Ok((alg, runs)) = h.join() {
+                let case = out.next_case();
+                out.emit(&json!({"ev":"determ","case":case,"alg":alg_name(alg),"old":seq_json(&x),"new":seq_json(&y),
+                    "config_reuse":true,"variants":[],"runs":runs}));
+            }
+        }
+    }
     // views into one buffer (same start address, overlapping, nested) against separate copies of
     // the same values: the result may depend on the values only, not on where they live
     for i in 0..(if thorough { 3000 } else { 400 }) {
